@@ -64,7 +64,7 @@ Definition skind_eqb (a b : skind) : bool := match a, b with Scal, Scal | Coll, 
 Definition prim_kinded (r : rkind) (p : prim) : bool :=
   match p with
   | PAppend sd _ _ | PRemove sd _ _ | PInsert sd _ _ _ | PPop sd _ _ | PDelItem sd _ _
-  | PSetItem sd _ _ _ | PReplace sd _ _ => skind_eqb (kind_of r sd) Coll
+  | PSetItem sd _ _ _ | PReplace sd _ _ | PDelColl sd _ => skind_eqb (kind_of r sd) Coll
   | PSet sd _ _ | PDel sd _ => skind_eqb (kind_of r sd) Scal
   end.
 
@@ -82,9 +82,15 @@ Proof.
   apply bind_total; [|intros s1; apply IH; exact K]. apply (call_total_coll r sd o v s K).
 Qed.
 
+Lemma clear_total : forall r sd o l s, kind_of r sd = Coll -> clear_with_event r sd o l s <> OutOfFuel.
+Proof.
+  intros r sd o l. induction l as [|v rest IH]; intros s K; cbn [clear_with_event]; [discriminate|].
+  apply bind_total; [|intros s1; apply IH; exact K]. apply (call_total_coll r sd o v s K).
+Qed.
+
 Theorem step_prim_total : forall r p s, prim_kinded r p = true -> step_prim r p s <> OutOfFuel.
 Proof.
-  intros r p s K. destruct p as [sd o v|sd o v|sd o i v|sd o i|sd o i|sd o i v|sd o vs|sd o v|sd o];
+  intros r p s K. destruct p as [sd o v|sd o v|sd o i v|sd o i|sd o i|sd o i v|sd o vs|sd o v|sd o|sd o];
     cbn [prim_kinded] in K; cbn [step_prim];
     (assert (KK : kind_of r sd = Coll \/ kind_of r sd = Scal) by (destruct (kind_of r sd); auto));
     (assert (KC : skind_eqb (kind_of r sd) Coll = true -> kind_of r sd = Coll) by (destruct (kind_of r sd); [discriminate|reflexivity]));
@@ -103,4 +109,6 @@ Proof.
   - apply bind_total; [apply (call_total_scal r sd o 0 s (KS K))|intros s1].
     destruct (cells s1 sd o); try discriminate. destruct (scalar_old s sd o); try discriminate;
       destruct (persistent s); discriminate.
+  - destruct (cells s sd o); try discriminate.
+    apply bind_total; [apply clear_total; exact (KC K)|intros; discriminate].
 Qed.
